@@ -60,6 +60,57 @@ func exportHubGraph(c *vk.Ctx, cfg HubCfg, dev []string) (*graph.Graph, tlcrun.R
 	return gs[0], res
 }
 
+// exportHubFamily explores a set of configurations between which a restart may switch (a reload with other policy options)
+// and returns ONE graph; its initial state is the fresh state of cfgs[0].
+func exportHubFamily(c *vk.Ctx, cfgs []HubCfg) (*graph.Graph, tlcrun.Result) {
+	var recs []string
+	for _, cfg := range cfgs {
+		recs = append(recs, cfg.TLA())
+	}
+	mc := fmt.Sprintf("---- MODULE MCRev ----\nEXTENDS Revocation\nCfgVal == {%s}\nDevVal == {}\n====\n", strings.Join(recs, ",\n  "))
+	cfgText := "SPECIFICATION Spec\nCONSTANTS\n Dev <- DevVal\n CfgSpace <- CfgVal\n MaxSteps = 0\n Export = TRUE\n" + hubProps + "CHECK_DEADLOCK FALSE\nVIEW View\n"
+	g := graph.New()
+	var perr error
+	res := tlcrun.Run(tlcrun.Options{SpecDir: vk.SpecDir(), Module: "MCRev", Config: cfgText, Workers: 4,
+		Files: map[string][]byte{"MCRev.tla": []byte(mc)},
+		OnTagged: func(tag string, p json.RawMessage) {
+			if tag == "EDGE" {
+				if err := g.AddPayload(p); err != nil {
+					perr = err
+				}
+			}
+		}})
+	if res.InfraErr != nil {
+		c.Infra("tlc Revocation (family): %v", res.InfraErr)
+	}
+	if !res.OK {
+		c.Infra("Revocation.tla violates its properties (specification problem, not a verdict about the code):\n%s", res.Violation)
+	}
+	if perr != nil {
+		c.Infra("edge payload: %v", perr)
+	}
+	g.Finish("")
+	for s, raw := range g.State {
+		var st struct {
+			Cfg   HubCfg `json:"cfg"`
+			Phase string `json:"phase"`
+			Ent   map[string]struct {
+				Meta bool  `json:"meta"`
+				Locs bool  `json:"locs"`
+				Keys []any `json:"keys"`
+			} `json:"ent"`
+		}
+		json.Unmarshal(raw, &st)
+		if st.Cfg.String() == cfgs[0].String() && st.Phase == "new" && !st.Ent["D"].Meta && !st.Ent["U"].Meta && !st.Ent["D"].Locs && !st.Ent["U"].Locs && len(st.Ent["D"].Keys) == 0 && len(st.Ent["U"].Keys) == 0 {
+			g.Init = s
+		}
+	}
+	if g.Init == "" {
+		c.Infra("initial state not found in exported Revocation family graph")
+	}
+	return g, res
+}
+
 // exportHubGraphs explores several configurations in one TLC run (cfg is chosen in Init) and splits the
 // exported edges by configuration. maxSteps = 0 explores the complete graphs.
 func exportHubGraphs(c *vk.Ctx, cfgs []HubCfg, dev []string, maxSteps int) ([]*graph.Graph, tlcrun.Result) {
@@ -287,6 +338,25 @@ func newHubWorld(cfg HubCfg, shape Shape, seed int64) (*hubWorld, error) {
 	return h, nil
 }
 
+// applyCfg switches the policy options for the next Provision (a restart with a changed configuration).
+func (h *hubWorld) applyCfg(cfg HubCfg) {
+	h.cfg = cfg
+	h.w.Cfg.Sig = cfg.Sig
+	h.w.Cfg.CdpStrict = cfg.Strict
+	h.w.Cfg.AiaStrict = cfg.Aia
+	if cfg.Fetch == "actively" {
+		h.w.Cfg.Fetch = "fetch_actively"
+	} else {
+		h.w.Cfg.Fetch = "fetch_background"
+	}
+	h.w.Cfg.Trusted = nil
+	if cfg.TrustA {
+		p := filepath.Join(h.w.Sandbox, "trustA.pem")
+		os.WriteFile(p, pki.PEMCert(h.cas["A"].Cert), 0o644)
+		h.w.Cfg.Trusted = []string{p}
+	}
+}
+
 func (h *hubWorld) destroy() {
 	if h.hooks != nil {
 		// a parked background update is let go against a fast-failing origin (an unreachable one would cost the retry loop)
@@ -452,6 +522,13 @@ func runHubWalk(c *vk.Ctx, cfg HubCfg, walk []*graph.Edge, shape Shape, seed int
 		json.Unmarshal(e.Op, &op)
 		var exp hubExpect
 		json.Unmarshal(e.Expect, &exp)
+		var toSt struct {
+			Cfg HubCfg `json:"cfg"`
+		}
+		json.Unmarshal([]byte(e.To), &toSt)
+		if toSt.Cfg.Mode != "" {
+			cfg = toSt.Cfg
+		}
 		obs := &hubObs{Cfg: cfg, Op: op, Exp: exp, Shape: shape}
 		before := map[string]int{"D": h.hits("D"), "U": h.hits("U")}
 		ocspBefore := h.org.Hits(pathOCSP)
@@ -521,6 +598,10 @@ func runHubWalk(c *vk.Ctx, cfg HubCfg, walk []*graph.Edge, shape Shape, seed int
 		case "cleanup":
 			if err := h.w.Cleanup(); err != nil {
 				real["cleanup_err"] = err.Error()
+			}
+			if cfg.String() != h.cfg.String() {
+				h.applyCfg(cfg) // the next instance is provisioned with other policy options
+				real["new_cfg"] = cfg
 			}
 		}
 		obs.Loaded = h.realLoaded()
